@@ -24,6 +24,9 @@ impl Tier {
     }
 }
 
+pub mod c01;
+pub mod c02;
+pub mod c05;
 pub mod c07;
 pub mod c09;
 pub mod c11;
@@ -32,6 +35,9 @@ pub mod c18;
 
 pub fn run(property: &str, tier: Tier, seed: u64) -> Option<MonOut> {
     match property {
+        "C01" => Some(c01::run(tier, seed)),
+        "C02" => Some(c02::run(tier, seed)),
+        "C05" => Some(c05::run(tier, seed)),
         "C07" => Some(c07::run(tier, seed)),
         "C09" => Some(c09::run(tier, seed)),
         "C11" => Some(c11::run(tier, seed)),
